@@ -62,7 +62,7 @@ def main():
                 shutil.copy(os.path.join(root, f), dst); copied.append(os.path.relpath(dst, wt))
         result["demo_files"] = copied
         # without the change: demo passes
-        rc0, out0 = sh(re.sub(r"/tmp/wt\d?-C\d+", wt, demo_cmd), cwd=wt)
+        rc0, out0 = sh(re.sub(r"/tmp/wt\d*-C\d+", wt, demo_cmd), cwd=wt)
         ran.append({"step": "demo without change", "cmd": demo_cmd, "exit": rc0})
         rc, out = sh(f"git apply {patch}", cwd=wt)
         assert rc == 0, "patch does not apply: " + out
@@ -71,7 +71,7 @@ def main():
         demo_tests = set()
         extra = [f for f in failed if f not in BASE_FAIL]
         ran.append({"step": "suite with change (demo included)", "failed_tests": failed})
-        rc1, out1 = sh(re.sub(r"/tmp/wt\d?-C\d+", wt, demo_cmd), cwd=wt)
+        rc1, out1 = sh(re.sub(r"/tmp/wt\d*-C\d+", wt, demo_cmd), cwd=wt)
         ran.append({"step": "demo with change", "cmd": demo_cmd, "exit": rc1})
         result["demo_passes_without_change"] = (rc0 == 0)
         result["demo_fails_with_change"] = (rc1 != 0)
